@@ -184,7 +184,7 @@ CHECKS = {
         design_ref="DESIGN.md sections 5 (C02) and 10.2",
         technique="Coq proof of totality/panic-freedom of the whole analysis pipeline model (lexer, parser, table, semantic analysis, diagnostics conversion) and of all request handlers on every analysed text + model/implementation correspondence on outcomes + request fuzzing of the binary"),
     "C03": dict(
-        category="other",
+        category="proof",
         text="Machine-checked (Props/C03.v, 58 theorems): for ARBITRARY trees and tables the analysis algorithm agrees with a "
              "declarative typing of SPL (Spec/Typing.v): no false positive (C03_analyze_sound, C03_build_sound), no false "
              "negative (C03_analyze_complete, C03_analyze_exact), per rule exactly that rule's message at the node the rule names "
